@@ -178,6 +178,7 @@ MAPSEL = {
     "T12": [(("r",), ()), (("z",), ()), (("s",), ()), (("s",), ("z",)), (("z",), ("r",)), (("s",), ("r",))],
     "T13": [(("d",), ()), (("y",), ()), (("y",), ("d",))],
     "T16": [(("d",), ()), (("y",), ()), (("y",), ("d",))],
+    "TG": [(("z",), ()), (("x",), ()), (("y",), ()), (("z", "x"), ()), (("z",), ("y",)), (("x",), ("y",))],
 }
 
 
@@ -218,7 +219,15 @@ def mapsel(tid, si, auto, drop_default, n0, n1, n2, *vals):
 
             shims.TOK.clear()
             log = tmpl.Log()
-            p = tmpl.make_pipeline(t.funcs, log)
+            if tid == "TG":
+                # the same pipeline, but its MapSpecs are generated: functions without MapSpec + add_mapspec_axis
+                bare = [tmpl.FSpec(fs.name, fs.params, fs.outputs, None, fs.internal, fs.defaults, fs.bound) for fs in t.funcs]
+                p = tmpl.make_pipeline(bare, log)
+                p.add_mapspec_axis("a", axis="i")
+                if sorted(p.mapspecs_as_strings) != sorted(["a[i] -> y[i]", "y[i] -> z[i]", "y[i] -> x[i]"]):
+                    raise AssertionError(p.mapspecs_as_strings)
+            else:
+                p = tmpl.make_pipeline(t.funcs, log)
         full_inputs = t.inputs(n, v)
         ref, ncalls = tmpl.reference(t.funcs, full_inputs)
         need_f, roots = _needs(t, S, provided)
